@@ -97,6 +97,10 @@ TRUSTED = [
     "every run; trusted for PostgreSQL/MariaDB/MSSQL)",
     "SQL text rewriting is observed, not modelled: the harness parses the VALUES groups, numeric "
     "placeholders and counters out of the emitted statement",
+    "ORM bulk insert: _emit_insert_statements is modelled at list level only (groupby on the key set, "
+    "one executemany per group, splice in execution order); each group's executemany is the Core model; "
+    "Result.splice_vertically = list append; where has_upsert_bound_parameters comes from "
+    "(visit_bindparam / visit_on_conflict_do_update) is pinned and echo-checked, not modelled",
     "not modelled: escaped_bind_names (identity here), schema_translate_map rendering, the setinputsizes "
     "expansion (mssql+pyodbc), engine events / logging in _exec_insertmany_context",
 ]
@@ -672,7 +676,7 @@ def gen_cases(rng, tier):
             g += 1
             cases.append(make_orm_case(rng, ks, sbo=1 if g % 4 else 0, page=[1, 2, 1000][g % 3], dopt=g % 2,
                                        pstyle=g % 4, ent=(g // 2) % 2))
-    for _ in range(400 if tier == "thorough" else 60):
+    for _ in range(400 if tier == "thorough" else 40):
         n = rng.randint(2, 12)
         ks, cur = [], rng.randrange(4)
         for _i in range(n):
@@ -682,7 +686,7 @@ def gen_cases(rng, tier):
         cases.append(make_orm_case(rng, ks, sbo=rng.choice([1, 1, 0]), page=rng.choice([1, 2, 3, 1000]),
                                    dopt=rng.randrange(2), pstyle=rng.randrange(4), ent=rng.randrange(2)))
     # 5. random larger ones
-    nrand = 4000 if tier == "thorough" else 120
+    nrand = 4000 if tier == "thorough" else 80
     for _ in range(nrand):
         style, dopt = rng.choice(combos)
         cases.append(
@@ -1272,7 +1276,8 @@ LEVEL_TEXT = (
     "database returns the rows of each statement, every parameter set is sent exactly once and the n-th "
     "returned row is the row of the n-th parameter set (guarded by: parameters outside VALUES do not "
     "differ per row; sentinel columns have client-side values or implicit support - both exclusions are "
-    "proved to be real defects and replayed as known findings); mode decision safety, batch partition, "
+    "proved to be real defects and replayed as known findings); the ORM bulk insert splice of per-key-set "
+    "executemany results is in parameter order for every sequence of key sets; mode decision safety, batch partition, "
     "total_batches, max_params clamp, positional / numeric / named parameter expansion, the two merge "
     "guards. The tie to the code: pinned normalised source + decision/arithmetic expressions re-extracted "
     "from the AST and proved equal to the model's on every run + behavioural correspondence on SQLite "
